@@ -230,6 +230,8 @@ fn strategy(_t: Tier) -> BoxedStrategy<Case> {
         3 => gen::fl(-10.0, 10.0),
         1 => Just(0.0),
         1 => (-40i32..=40).prop_map(|k| k as f64 * 0.25),
+        // far from the origin: an absolute tolerance of 1e-12 is then a few units in the last place
+        1 => (gen::logu(1.0, 3.48), gen::sign()).prop_map(|(m, s)| m * s),
     ];
     let width = || prop_oneof![3 => gen::logu(-3.0, 0.5), 1 => prop_oneof![Just(1.0), Just(0.5), Just(2.0), Just(0.25)]];
     let invalid = prop_oneof![12 => Just(0u8), 1 => Just(1u8), 1 => 2u8..=7];
@@ -244,6 +246,8 @@ fn strategy(_t: Tier) -> BoxedStrategy<Case> {
             let (sigma, w1, w2) = if multi { (sigma.min(1.0 / sigma) * 0.8, 0.4 + 3.0 * w1.min(1.0), 0.4 + 3.0 * w2.min(1.0)) } else { (sigma, w1, w2) };
             // steep class: the same catalogue on a 100x / 1000x finer scale (strongly non-linear on the scale of a loose
             // tolerance); brackets at most 30 scale lengths wide so that the values stay finite
+            // far roots: the tolerance stays representable (>= 8 eps |x|)
+            let tol = if r.abs() > 10.0 { tol.max(8.0 * EPS * (r.abs() + 4.0)) } else { tol };
             let (sigma, w1, w2) = if steep < 1.0 { (sigma * steep, w1.min(30.0 * sigma * steep), w2.min(30.0 * sigma * steep)) } else { (sigma, w1, w2) };
             Case {
             solver,
@@ -281,7 +285,7 @@ pub fn run(opts: &Opts) -> i32 {
     }
     spec.cases = opts.tier.pick(1_200_000, 30_000_000);
     spec.essential = vec![("decreasing", 0.3), ("bisection", 0.2), ("brent", 0.2), ("itp", 0.2), ("multi-root", 0.01), ("same-sign", 0.005), ("invalid-params", 0.03), ("bisection-reversed", 0.05), ("nonlinear-at-tolerance-scale", 0.03)];
-    spec.rule = "generated: solver x catalogue function s*g((x-r)/sigma) (linear, cubic, u(1+u^2), expm1, atan, sin, u^5/7/9, tanh, three-root cubic, expm1*(2+cos 3u)) with s=+-1, root r in [-10,10] incl. 0 and dyadic values, sigma 10^[-1,1] (times 1e-2 or 1e-3 in two fifths of the cases: functions that are strongly non-linear on the scale of a loose tolerance), bracket [r-w1, r+w2] with w 10^[-3,0.5] or dyadic, either order, tol 10^[-12,-2], ITP k1 10^[-2,1]/(b-a), k2 in (1.01,2.6), n0 in [0,3]; invalid class: negative tolerance, k1<0, k2 in {0.5,1,1+phi,3}, n0<0, same-sign ends (arises for sin/three-root brackets), reversed bisection bracket. Oracle: recorded abscissae inside the bracket, evaluation budget, Ok => inside bracket and within tol (relative to max(1,|x|) for bisection) of a sign-change root of the catalogue function (or |f|<tol for Brent), Ok required on valid input (bisection also with n_max exactly the number of halvings its stopping rule needs), Err on invalid. Non-trivial = decreasing, or bracket not containing 0, or several roots in the bracket, or >= 10 evaluations. Distinct = distinct case JSON.".into();
+    spec.rule = "generated: solver x catalogue function s*g((x-r)/sigma) (linear, cubic, u(1+u^2), expm1, atan, sin, u^5/7/9, tanh, three-root cubic, expm1*(2+cos 3u)) with s=+-1, root r in [-10,10] incl. 0 and dyadic values (one case in six |r| in 10^[1,3.48] with the tolerance raised to at least 8 eps |r|: an absolute tolerance of a few units in the last place), sigma 10^[-1,1] (times 1e-2 or 1e-3 in two fifths of the cases: functions that are strongly non-linear on the scale of a loose tolerance), bracket [r-w1, r+w2] with w 10^[-3,0.5] or dyadic, either order, tol 10^[-12,-2], ITP k1 10^[-2,1]/(b-a), k2 in (1.01,2.6), n0 in [0,3]; invalid class: negative tolerance, k1<0, k2 in {0.5,1,1+phi,3}, n0<0, same-sign ends (arises for sin/three-root brackets), reversed bisection bracket. Oracle: recorded abscissae inside the bracket, evaluation budget, Ok => inside bracket and within tol (relative to max(1,|x|) for bisection) of a sign-change root of the catalogue function (or |f|<tol for Brent), Ok required on valid input (bisection also with n_max exactly the number of halvings its stopping rule needs), Err on invalid. Non-trivial = decreasing, or bracket not containing 0, or several roots in the bracket, or >= 10 evaluations. Distinct = distinct case JSON.".into();
     spec.assumptions = vec!["catalogue root sets are analytic; sin roots k*pi rounded to f64 (covered by the 16 eps allowance)".into()];
     spec.max_discard_frac = 0.05;
     run_spec(spec, opts)
